@@ -116,6 +116,27 @@ theorem gen_iter_chunks_wf (E M : Nat) (s : St) (h : ArenaWF E s.a) :
     iterRun E M s (s.a.chunks.length + 1) (s.a.cur E) = .ok (iterChunks s.a) :=
   gen_iter_chunks E M s (IterOK.of_wf h)
 
+/-- the safe iterator (`ChunkIter::next`) yields exactly what the raw one yields, and moves as it moves -/
+theorem gen_chunk_iter_next (E M : Nat) (c : Chunk) (s : St) :
+    Gen.Fn.chunk_iter_next E M c s = Gen.Fn.chunk_raw_iter_next E M c s := by
+  unfold Gen.Fn.chunk_iter_next
+  cases h : Gen.Fn.chunk_raw_iter_next E M c s with
+  | ok r =>
+    obtain ⟨o, c'⟩ := r
+    cases o with
+    | none => rfl
+    | some it => rfl
+  | err => rfl
+  | panic => rfl
+  | bad w => rfl
+  | envBad => rfl
+
+/-- both constructors start at the arena's current chunk -/
+theorem gen_iter_allocated_chunks_raw (E M : Nat) (s : St) : Gen.Fn.iter_allocated_chunks_raw E M s = .ok (s.a.cur E) := rfl
+theorem gen_iter_allocated_chunks (E M : Nat) (s : St) : Gen.Fn.iter_allocated_chunks E M s = .ok (s.a.cur E) := rfl
+
+#print axioms gen_chunk_iter_next
+#print axioms gen_iter_allocated_chunks
 #print axioms gen_iter_chunks
 #print axioms gen_iter_chunks_wf
 end Bump
